@@ -42,3 +42,14 @@ cond = FindNodes(ir.Conditional).visit(r.body)[0]
 r.body = Transformer({cond.body[0]: None}).visit(r.body)
 out = fgen(r.body, conservative=True)
 print('--- R2: RETURN statement removed from the IR, still printed:', 'return' in out.lower())
+
+# R4 / R5: in-place additions keep the section VALID -> the new node is missing from conservative output
+r = Subroutine.from_source(src)
+first = FindNodes(ir.Assignment).visit(r.body)[0]
+r.body.append(first.clone(lhs=first.lhs.clone(dimensions=(first.lhs.dimensions[0] + 1,)), source=None))
+print('--- R4: statement appended with Section.append present in conservative output:', 'a(1 + 1)' in fgen(r, conservative=True))
+from loki.expression import symbols as sym
+from loki.types import SymbolAttributes, BasicType
+r = Subroutine.from_source(src)
+r.arguments += (sym.Variable(name='extra', type=SymbolAttributes(BasicType.INTEGER, intent='in'), scope=r),)
+print('--- R5: declaration of an argument added via routine.arguments present:', 'extra' in fgen(r.spec, conservative=True).lower())
